@@ -795,9 +795,7 @@ theorem libsvm_roundtrip {V : Type} (zero : V) (labelInt : V → Option Int) (pt
 
 /-! ## LibSVM round trip with class-label mappings and sparse records (token level) -/
 
-/-- the label `exportSparseData` writes for class `l`: `2l - 1` with `oneMinusOne` (two classes), else `l + 1` -/
-def svmLabelOut (omo : Bool) (l : Nat) : Int := if omo then 2 * (l : Int) - 1 else (l : Int) + 1
-
+open SharkVerif.Import.Export in
 /-- **LibSVM round trip, classification, sparse or dense inputs (token level).**  The records `exportSparseData`
 writes for a labelled dataset — per element the mapped class label (`-1/+1` for two classes with `oneMinusOne`,
 else `label + 1`) and `index+1:value` for the stored entries (strictly increasing indices below `d`; a dense
@@ -806,8 +804,8 @@ target vectors, as the same entries with the same class labels and `numberOfClas
 `highestIndex = d` is passed, class 0 occurs (otherwise the importer's min-shift renumbers: `csv_roundtrip_shift_witness`)
 and dense vectors fit the allocation limit. -/
 theorem libsvm_roundtrip_class {V : Type} (zero : V) (ofInt : Int → V) (labelInt : V → Option Int)
-    (hli : ∀ i, labelInt (ofInt i) = some i)
     (pts : List (Nat × List (Nat × V))) (d bs limit : Nat) (sparse omo : Bool)
+    (hli : ∀ p ∈ pts, labelInt (ofInt (svmLabelOut omo p.1)) = some (svmLabelOut omo p.1))
     (hidx : ∀ p ∈ pts, strictlyIncreasing (p.2.map (·.1)) = true ∧ ∀ q ∈ p.2, q.1 < d)
     (hne : pts ≠ []) (h0 : 0 ∈ pts.map (·.1)) (homo : omo = true → ∀ p ∈ pts, p.1 ≤ 1)
     (hlimit : sparse = true ∨ (initBatches pts.length bs).foldl max 1 * d ≤ limit) :
@@ -844,7 +842,10 @@ theorem libsvm_roundtrip_class {V : Type} (zero : V) (ofInt : Int → V) (labelI
     | cons a t => simp
   have hlab : classLabels ((pts.map fun p => (⟨ofInt (svmLabelOut omo p.1), p.2.map fun q => (q.1 + 1, q.2)⟩ : Rec V)).map
       fun r => labelInt r.label) = some (pts.map (·.1)) := by
-    simp only [List.map_map, Function.comp_def, hli]
+    have hm : ((pts.map fun p => (⟨ofInt (svmLabelOut omo p.1), p.2.map fun q => (q.1 + 1, q.2)⟩ : Rec V)).map
+        fun r => labelInt r.label) = pts.map (fun p => some (svmLabelOut omo p.1)) := by
+      rw [List.map_map]; apply List.map_congr_left; intro p hp; exact hli p hp
+    rw [hm]
     cases omo with
     | false =>
       have := classLabels_succ (pts.map (·.1)) h0
@@ -1003,6 +1004,77 @@ example : svmRegr [(Val.fin false 5 (-1), [(0, Val.fin false 1 0), (2, Val.fin t
               rows := [.sparse 3 [(0, Val.fin false 1 0), (2, Val.fin true 1 (-2))],
                        .sparse 3 [(1, Val.fin false 3602879701896397 (-55))]],
               labels := .reg [[Val.fin false 5 (-1)], [Val.inf true]] } := by decide
+
+open SharkVerif.Import.Export in
+/-- **C19, second sentence, `exportSparseData` → `importSparseData` FROM BYTES (class labels).**  For every labelled
+dataset (class indices below 2^31 - 1 with class 0 present, stored entries of binary64 values with strictly
+increasing indices below `d`; `oneMinusOne` on or off, `sortLabels` off; sparse or dense target, any batch size,
+`highestIndex = d`): importing the bytes the exporter wrote yields the same class labels — the label tokens
+(`-1` / `+1` or `label + 1`) are integers, which `double_` converts exactly (`real_intDigits`) and the importer's
+label logic maps back — `numberOfClasses` as label shape, and the entries read back token by token. -/
+theorem libsvm_export_import_bytes_class (pts : List ClsPoint) (omo : Bool) (d bs limit : Nat) (sparse : Bool)
+    (htok : ∀ p ∈ pts, p.1 + 1 < 2 ^ 31 ∧
+      ∀ q ∈ p.2, q.1 + 1 < 4294967296 ∧ isDouble q.2.1 = true ∧ readBack (svmNum q.2.1) = some q.2.2)
+    (hidx : ∀ p ∈ pts, strictlyIncreasing (p.2.map (·.1)) = true ∧ ∀ q ∈ p.2, q.1 < d)
+    (hne : pts ≠ []) (h0 : 0 ∈ pts.map (·.1))
+    (hlimit : sparse = true ∨ (initBatches pts.length bs).foldl max 1 * d ≤ limit) :
+    Svm.importBytes { sparse := sparse, cls := true, dims := d, bs := bs, allocLimit := limit }
+        (svmClass (pts.map fun p => (p.1, p.2.map fun q => (q.1, q.2.1))) omo false) =
+      .ok { shape := some d, lshape := some (numberOfClasses (pts.map (·.1))), batches := initBatches pts.length bs,
+            rows := pts.map (fun p => if sparse then Row.sparse d (p.2.map fun q => (q.1, q.2.2))
+                                      else Row.dense (denseRow Val.zero d (p.2.map fun q => (q.1, q.2.2)))),
+            labels := .cls (pts.map (·.1)) } := by
+  unfold Svm.importBytes
+  rw [svmRecords_svmClass pts omo htok]
+  generalize hO : (omo && (if pts.isEmpty then 1 else numberOfClasses (pts.map (·.1))) == 2) = O
+  have homo : O = true → ∀ p ∈ pts, p.1 ≤ 1 := by
+    intro hOt p hp
+    rw [hOt] at hO
+    simp only [Bool.and_eq_true, beq_iff_eq] at hO
+    have hpe : pts.isEmpty = false := by
+      cases pts with
+      | nil => exact absurd rfl hne
+      | cons a t => rfl
+    rw [hpe] at hO
+    simp only [Bool.false_eq_true, if_false] at hO
+    have := numberOfClasses_gt (pts.map (·.1)) p.1 (List.mem_map.mpr ⟨p, hp, rfl⟩)
+    omega
+  simp only [List.map_map]
+  have h := libsvm_roundtrip_class Val.zero Val.ofInt Val.toInt32
+    (pts.map fun p => (p.1, p.2.map fun q => (q.1, q.2.2))) d bs limit sparse O
+    (by
+      intro p' hp'
+      obtain ⟨p, hp, rfl⟩ := List.mem_map.mp hp'
+      obtain ⟨hz, _, hlo, hhi⟩ := svmLabelOut_props O p.1 (htok p hp).1 (fun hOt => homo hOt p hp)
+      exact toInt32_ofInt _ hz hlo hhi)
+    (by
+      intro p' hp'
+      obtain ⟨p, hp, rfl⟩ := List.mem_map.mp hp'
+      have := hidx p hp
+      simp only [List.map_map] at this ⊢
+      refine ⟨by simpa [Function.comp_def] using this.1, ?_⟩
+      intro q' hq'
+      obtain ⟨q, hq, rfl⟩ := List.mem_map.mp hq'
+      exact this.2 q hq)
+    (by simpa using hne)
+    (by simpa [List.map_map, Function.comp_def] using h0)
+    (by
+      intro hOt p' hp'
+      obtain ⟨p, hp, rfl⟩ := List.mem_map.mp hp'
+      exact homo hOt p hp)
+    (by simpa using hlimit)
+  simp only [List.map_map, List.length_map, Function.comp_def] at h ⊢
+  exact h
+
+open SharkVerif.Import.Export in
+/-- non-vacuity: classes 0 / 1 with `oneMinusOne`, written as `-1  2:7.5` and `1  1:8 3:9` (the exporter puts a blank
+after the label and one before each entry), imported again as the same dataset -/
+example : svmClass [(0, [(1, Val.fin false 15 (-1))]), (1, [(0, Val.fin false 1 3), (2, Val.fin false 9 0)])] true false
+      = "-1  2:7.5\n1  1:8 3:9\n".toList ∧
+    Svm.importBytes { sparse := true, cls := true, dims := 3, bs := 0, allocLimit := 0 } "-1  2:7.5\n1  1:8 3:9\n".toList
+      = .ok { shape := some 3, lshape := some 2, batches := [2],
+              rows := [.sparse 3 [(1, Val.fin false 15 (-1))], .sparse 3 [(0, Val.fin false 1 3), (2, Val.fin false 9 0)]],
+              labels := .cls [0, 1] } := by decide
 
 open SharkVerif.Import.Export in
 /-- **C19, byte-level round trip of a value in `%.<p>g` format, every binary64 value** (`exportSparseData`: `%.6g`;
